@@ -686,3 +686,36 @@ pub fn aligned_pointer_packets() -> Vec<Vec<u8>> {
     }
     v
 }
+
+/// One accepted packet per (record type, data shape): data that looks like names/pointers must be treated as
+/// opaque for every type the library does not understand. Calls f(index, packet) for the accepted ones.
+pub fn all_types_packets(pointer_free_only: bool, mut f: impl FnMut(u64, &[u8])) -> u64 {
+    let shapes: [&[u8]; 5] = [&[0xc0, 0x0c], &[1, b'z', 0], &[0, 5, 0xc0, 0x0c], &[3, b'w', b'w', b'w', 0xc0, 0x0c], &[0xc0, 0x0c, 0xc0, 0x0c, 9, 9, 9, 9, 9, 9, 9, 9, 9, 9, 9, 9, 9, 9, 9, 9, 9, 9, 9, 9]];
+    let mut n = 0u64;
+    for t in 0..=0xffffu32 {
+        for sh in shapes.iter() {
+            let mut p = vec![0x12, 0x34, 0x81, 0x80, 0, 1, 0, 1, 0, 0, 0, 1];
+            p.extend_from_slice(&[1, b'q', 1, b'a', 0, 0, 1, 0, 1]);
+            if pointer_free_only {
+                p.extend_from_slice(&[1, b'q', 1, b'a', 0]);
+            } else {
+                p.extend_from_slice(&[0xc0, 12]);
+            }
+            p.extend_from_slice(&(t as u16).to_be_bytes());
+            p.extend_from_slice(&[0, 1, 0, 0, 0, 9]);
+            p.extend_from_slice(&(sh.len() as u16).to_be_bytes());
+            p.extend_from_slice(sh);
+            // a trailing A record so that offsets after the odd record matter
+            p.extend_from_slice(&[1, b'q', 1, b'a', 0, 0, 1, 0, 1, 0, 0, 0, 1, 0, 4, 1, 2, 3, 4]);
+            if wf(&p).is_err() {
+                continue;
+            }
+            if pointer_free_only && !decode(&p).map(|d| d.pointer_free).unwrap_or(false) {
+                continue;
+            }
+            f(n, &p);
+            n += 1;
+        }
+    }
+    n
+}
